@@ -46,15 +46,18 @@ def ops_alphabet(menu, ents):
     al.append(REBUILD)
     return al
 
-def build_scenario(rng, menu, ents, plan, L, initial, cfg=None, raws=None):
+def build_scenario(rng, menu, ents, plan, L, initial, cfg=None, raws=None, pauses=False):
     """plan: list of (after_frame, mode, op) with mode 'direct' | 'update'"""
     cfg = cfg or make_cfg(rng, menu, ents, L)
     steps = []
     for e, cs in initial.items():
         steps.append(sop(spawn(e, cs)))
+    paused = False
     for k in range(L):
         upd = [o for (f, m, o) in plan if f == k and m == 'update']
-        steps.append(frame(raws[k] if raws else raw(), rand_dt(rng), ops=upd))
+        # the virtual clock may be paused for a few frames: actions are evaluated and events delivered all the same
+        if pauses and rng.random() < 0.15: paused = not paused
+        steps.append(frame(raws[k] if raws else raw(), rand_dt(rng), F(1), paused, ops=upd))
         for (f, m, o) in plan:
             if f == k and m == 'direct':
                 steps.append(sop(o))
